@@ -1329,6 +1329,19 @@ example : (bstep cEx (bstep cEx ([], set (exec (createSteps cEx sEx fEx) sEx) [[
 example : (get (brun cEx [.modify [['d'], ['x']] [.byte 9], .create ['m'] [[['x']]], .reopen, .restore ['n'] []]
     ([(['n'], [['s', '/', 'a'], ['x']])], exec (createSteps cEx sEx fEx) sEx)).2 [['d'], ['x']]) = some (.reg [.byte 7]) := by
   decide
+/-- Keys are case-preserving (`joinKey`/`splitKey` are the identity on components): two directories that
+differ only in case are two backups entries, two copies and two restore destinations. -/
+theorem restore_case_sensitive_example :
+    let c : Cfg := { dataRoot := [['d']], backups := [['d'], ['b']], name := ['n'], stamp := ['t'] }
+    let s0 : St := [([['d']], .dir), ([['d'], ['b']], .dir), ([['d'], ['A']], .dir), ([['d'], ['a']], .dir),
+      ([['d'], ['A'], ['x']], .reg [.byte 1]), ([['d'], ['a'], ['x']], .reg [.byte 2])]
+    let fs : List Path := [[['A'], ['x']], [['a'], ['x']]]
+    let s1 := exec (createSteps c s0 fs) s0
+    (scan s1 c.backups).toOption = some [(['n'], [['A', '/', 'x'], ['a', '/', 'x']])] ∧
+    splitKey (joinKey [['A'], ['x']]) = [['A'], ['x']] ∧
+    (runOps c id fs [.modify [['d'], ['A'], ['x']] [.byte 9], .delete [['d'], ['a']], .restore []] s1).toOption.map
+        (fun s => (get s [['d'], ['A'], ['x']], get s [['d'], ['a'], ['x']]))
+      = some (some (.reg [.byte 1]), some (.reg [.byte 2])) := by decide
 end Examples
 
 end HedVerif.C18
